@@ -3,11 +3,15 @@ package seq
 import (
 	"bytes"
 	"encoding/json"
+	"errors"
 	"fmt"
 	"io"
+	"math"
+	"net"
 	"reflect"
 	"runtime"
 	"strings"
+	"time"
 
 	"nhooyr.io/websocket"
 	"nhooyr.io/websocket/wsjson"
@@ -510,6 +514,27 @@ type c19Typed struct {
 	N int `json:"n"`
 }
 
+// c19Rich has fields whose decoders refuse some well-formed JSON strings.
+type c19Rich struct {
+	B  []byte    `json:"b"`
+	T  time.Time `json:"t"`
+	IP net.IP    `json:"ip"`
+	U  c19Upper  `json:"u"`
+}
+
+// c19Upper is a TextUnmarshaler that accepts upper-case ASCII letters only.
+type c19Upper string
+
+func (u *c19Upper) UnmarshalText(b []byte) error {
+	for _, ch := range b {
+		if ch < 'A' || ch > 'Z' {
+			return fmt.Errorf("c19Upper: %q is not upper case", b)
+		}
+	}
+	*u = c19Upper(b)
+	return nil
+}
+
 var c19BadDocs = []struct {
 	Kind string
 	Doc  []byte
@@ -527,6 +552,12 @@ var c19BadDocs = []struct {
 	{"wrong-type-long-literal", []byte(`{"n":` + strings.Repeat("9", 140) + `}`)},
 	{"wrong-type-long-string", []byte(`{"n":"` + strings.Repeat("long string value ", 12) + `"}`)},
 	{"truncated-long", []byte(`{"` + strings.Repeat("k", 200) + `":[1,2,`)},
+	// well-formed JSON of the right kind whose content the target's decoder refuses
+	{"target-refuses-base64", []byte(`{"b":"!!! not base64 !!!"}`)},
+	{"target-refuses-unpadded-base64", []byte(`{"b":"QUJDRA"}`)},
+	{"target-refuses-time", []byte(`{"t":"yesterday"}`)},
+	{"target-refuses-ip", []byte(`{"ip":"999.1.1.1"}`)},
+	{"target-refuses-text", []byte(`{"u":"lower"}`)},
 }
 
 func c19BadCases() []c19BadCase {
@@ -535,6 +566,9 @@ func c19BadCases() []c19BadCase {
 		targets := []string{"interface", "raw", "struct", "typed"}
 		if strings.HasPrefix(d.Kind, "wrong-type") {
 			targets = []string{"typed"}
+		}
+		if strings.HasPrefix(d.Kind, "target-refuses") {
+			targets = []string{"rich"}
 		}
 		for _, tg := range targets {
 			for i := 0; i < 32; i++ {
@@ -560,8 +594,11 @@ func c19BadOne(c *fw.Ctx, cs c19BadCase) {
 		return
 	}
 	newTarget := func() interface{} {
-		if cs.Target == "typed" {
+		switch cs.Target {
+		case "typed":
 			return new(c19Typed)
+		case "rich":
+			return new(c19Rich)
 		}
 		return c19NewTarget(cs.Target)
 	}
@@ -585,7 +622,11 @@ func c19BadOne(c *fw.Ctx, cs c19BadCase) {
 	}
 	var in []byte
 	if cs.Prelude {
-		in = append(in, enc(frame.OpText, []byte(`{"n":7,"a":[true,null],"b":"ok"}`))...)
+		prelude := `{"n":7,"a":[true,null],"b":"ok"}`
+		if cs.Target == "rich" {
+			prelude = `{"b":"QUJD","t":"2020-01-02T03:04:05Z","ip":"10.0.0.1","u":"UP"}`
+		}
+		in = append(in, enc(frame.OpText, []byte(prelude))...)
 	}
 	op := byte(frame.OpText)
 	if cs.Binary {
@@ -630,7 +671,131 @@ func c19BadOne(c *fw.Ctx, cs c19BadCase) {
 	c.OutcomeStr("bad " + desc)
 }
 
+// ---------------------------------------------------------- unencodable ---
+
+// c19UnencCase: a value encoding/json cannot marshal is written (the call must
+// fail), framed by ordinary writes on the same connection: every ordinary
+// write still produces exactly one text message.
+type c19UnencCase struct {
+	Kind   string `json:"kind"`
+	Client bool   `json:"client"`
+	Comp   bool   `json:"comp"`
+	Before bool   `json:"before"` // an ordinary write precedes the failing one
+}
+
+type c19FailingMarshaler struct{}
+
+func (c19FailingMarshaler) MarshalJSON() ([]byte, error) { return nil, errors.New("cannot marshal") }
+
+var c19UnencKinds = []string{"nan", "inf", "nested-nan", "chan", "func", "failing-marshaler", "invalid-raw-message", "big-then-nan"}
+
+func c19Unencodable(kind string) interface{} {
+	switch kind {
+	case "nan":
+		return math.NaN()
+	case "inf":
+		return math.Inf(1)
+	case "nested-nan":
+		return map[string]interface{}{"a": []interface{}{1, "x", math.NaN()}}
+	case "chan":
+		return make(chan int)
+	case "func":
+		return struct{ F func() }{}
+	case "failing-marshaler":
+		return []interface{}{1, c19FailingMarshaler{}}
+	case "invalid-raw-message":
+		return json.RawMessage(`{"a":`)
+	case "big-then-nan":
+		return []interface{}{strings.Repeat("x", 70000), math.NaN()}
+	}
+	panic("c19: unknown unencodable kind " + kind)
+}
+
+// c19UnencOne reports whether a library call only ended through the hang guard
+// (the caller then stops: every further case would wait for the guard again).
+func c19UnencOne(c *fw.Ctx, cs c19UnencCase) (hung bool) {
+	c.Eval()
+	desc := fmt.Sprintf("%+v", cs)
+	v := c19Unencodable(cs.Kind)
+	if _, err := json.Marshal(v); err == nil {
+		c.EngineError(desc + ": encoding/json marshals this value")
+		return
+	}
+	ctx, cancel := mxGuard(20 * time.Second) // a blocked ordinary write is the violation looked for here
+	defer cancel()
+	t := mxNewTransport()
+	conn := mxConn(t, cs.Client, c19CompMode(cs.Comp))
+	defer conn.CloseNow()
+	inf := &deflate.Inflater{}
+	ordinary := func(n int, when string) bool {
+		val := map[string]interface{}{"seq": n, "pad": strings.Repeat("p", 600)}
+		before := t.LogLen()
+		var werr error
+		if p := fw.Recover(func() { werr = wsjson.Write(ctx, conn, val) }); p != "" {
+			c.Violate("C19/panic", desc+": wsjson.Write panicked: "+p, cs)
+			return false
+		}
+		if werr != nil {
+			hung = mxHung(werr)
+			c.Violate("C19/write-failed/"+when+"-unencodable-value", fmt.Sprintf("%s: an ordinary wsjson.Write %s the failed one returned %v", desc, when, werr), cs)
+			return false
+		}
+		payload, problem := c19Message(t.Log()[before:], cs.Client, cs.Comp, inf)
+		if problem != "" {
+			c.Violate("C19/not-one-text-message", fmt.Sprintf("%s: ordinary write %s the failed one: %s", desc, when, problem), cs)
+			return false
+		}
+		want, _ := json.Marshal(val)
+		wc, _ := c19Canon(want)
+		gc, err := c19Canon(payload)
+		if err != nil || !bytes.Equal(wc, gc) {
+			c.Violate("C19/wire-json-differs", fmt.Sprintf("%s: ordinary write %s the failed one put %s on the wire", desc, when, c19Abbrev(payload)), cs)
+			return false
+		}
+		return true
+	}
+	if cs.Before && !ordinary(1, "before") {
+		return
+	}
+	before := t.LogLen()
+	var werr error
+	if p := fw.Recover(func() { werr = wsjson.Write(ctx, conn, v) }); p != "" {
+		c.Violate("C19/panic", desc+": wsjson.Write panicked: "+p, cs)
+		return
+	}
+	if werr == nil {
+		c.Violate("C19/unencodable-value-written", fmt.Sprintf("%s: wsjson.Write returned nil for a value encoding/json cannot marshal; wire: %x", desc, xportHead(t.Log()[before:])), cs)
+		return
+	}
+	if n := t.LogLen() - before; n != 0 {
+		c.Violate("C19/not-one-text-message", fmt.Sprintf("%s: the failed wsjson.Write (%v) put %d bytes on the wire", desc, werr, n), cs)
+		return
+	}
+	if !ordinary(2, "after") {
+		return
+	}
+	c.OutcomeStr("unenc " + desc)
+	return
+}
+
+func c19UnencCases() []c19UnencCase {
+	var out []c19UnencCase
+	for _, k := range c19UnencKinds {
+		for i := 0; i < 8; i++ {
+			out = append(out, c19UnencCase{Kind: k, Client: i&1 != 0, Comp: i&2 != 0, Before: i&4 != 0})
+		}
+	}
+	return out
+}
+
 func c19MiscRun(c *fw.Ctx, shard, nshards int) {
+	un := c19UnencCases()
+	for i := shard; i < len(un); i += nshards {
+		if c19UnencOne(c, un[i]) {
+			break
+		}
+	}
+	c.Bound("unencodable_cases", len(un))
 	al := c19AliasCases()
 	bad := c19BadCases()
 	for i := shard; i < len(al); i += nshards {
@@ -675,6 +840,12 @@ func init() {
 			var probe map[string]interface{}
 			if json.Unmarshal(data, &probe) != nil {
 				c.EngineError("bad replay data")
+				return
+			}
+			if _, isUnenc := probe["before"]; isUnenc {
+				var cs c19UnencCase
+				json.Unmarshal(data, &cs)
+				c19UnencOne(c, cs)
 				return
 			}
 			if _, isBad := probe["kind"]; isBad {
